@@ -8,10 +8,12 @@
      on an empty group, a failing assert): excluded by the property.
    The typed-state precondition of the property is built into plain_pipe (scan_res requires `fits`).
    ptimed_pipe P xs = Some (steps, fin) : the TIMED plain list semantics (Mux/PlainTimed.v), tee_map with
-     its three joins included (take / first, which complete a plain observable early, are left to
-     plain_pipe): while the i-th item is pushed the plain subscriber receives nth i steps, and fin when the
-     source completes.  Pure list functions, tied to the real plain runs step by step by the
-     correspondence check (MCPlainT). *)
+     its three joins included: while the i-th item is pushed the plain subscriber receives nth i steps,
+     and fin when the source completes.  Pure list functions.  take / first are modelled as ceasing to pass
+     items; a plain observable really completes there, which gives the same timed outputs exactly on the
+     tee_safe fragment of the property (no completion-triggered operator downstream of take / first:
+     PlainTimed.tsafe), and on that fragment ptimed_pipe is tied to the real plain runs step by step by
+     the correspondence check (MCPlainT). *)
 From Coq Require Import List ZArith Bool.
 From RxVerif Require Import Mux.Val Mux.Sim Mux.SimExt Mux.Ops Mux.Syntax Mux.ConfineProofs Mux.LocalSemProofs
   Mux.OpsSpecProofs Mux.MasterProofs Mux.Plain Mux.PlainProofs Mux.PlainTimed Mux.PlainTimedProofs.
